@@ -86,8 +86,8 @@ impl Property for C01 {
     }
     fn cases(&self, tier: Tier) -> usize {
         match tier {
-            Tier::Quick => 40_000,
-            Tier::Thorough => 2_000_000,
+            Tier::Quick => 300_000,
+            Tier::Thorough => 10_000_000,
         }
     }
     fn assumptions(&self) -> Vec<String> {
